@@ -5,6 +5,7 @@ import (
 	"bytes"
 	"encoding/json"
 	"fmt"
+	"math/bits"
 	"reflect"
 	"slices"
 	"sort"
@@ -139,6 +140,25 @@ func cases() []cse {
 			}
 		}
 	}
+	// names whose JSON encoding orders differently from the name itself (a prefix followed by a
+	// character below the closing quote, HTML-escaped and control characters, upper/lower case):
+	// every subset of size <= 3 with no order, an empty order, and each single listed name
+	odd := []string{"a", "a b", "a!", "a<b", "aBc", "a&c", "\u0001", "A", "x\ty", "x y", "a\u2028", "a\"", "a\\"}
+	for mask := 0; mask < 1<<len(odd); mask++ {
+		if bits.OnesCount(uint(mask)) > 3 || mask == 0 {
+			continue
+		}
+		var props []string
+		for i, n := range odd {
+			if mask&(1<<i) != 0 {
+				props = append(props, n)
+			}
+		}
+		out = append(out, cse{props, nil, false}, cse{props, []string{}, false})
+		for _, p := range props {
+			out = append(out, cse{props, []string{p}, false})
+		}
+	}
 	return out
 }
 
@@ -152,7 +172,7 @@ func mkProps(ps []string) map[string]*jsonschema.Schema {
 
 func Run(r *ev.Run) {
 	cs := cases()
-	r.Rule("property name sets of size<=4 over {a,b,c,d,é,\"\"} x every PropertyOrder that is a permutation of a subset, such a list with names absent from properties inserted at every position, or a list with one duplicate (present or absent name); each at the root and nested under properties / items / $defs / allOf with an own order on both levels. Oracle R5: key order read from the token stream = listed names that exist, in list order, then the rest ascending; a duplicate anywhere in the tree makes Marshal fail. Determinism: 20 marshals of every value (and of every schema For returns for the G-type catalogue) give identical bytes; the caller's PropertyOrder slice is unchanged afterwards. Non-trivial = every case (distinct by construction)")
+	r.Rule("property name sets of size<=4 over {a,b,c,d,é,\"\"} x every PropertyOrder that is a permutation of a subset, such a list with names absent from properties inserted at every position, or a list with one duplicate (present or absent name); plus every name set of size<=3 over 13 names whose JSON encoding sorts differently from the name (space, !, <, &, control characters, U+2028, quote, backslash, case) with no / empty / single-name orders; each at the root and nested under properties / items / $defs / allOf with an own order on both levels. Oracle R5: key order read from the token stream = listed names that exist, in list order, then the rest ascending; a duplicate anywhere in the tree makes Marshal fail. Determinism: 20 marshals of every value (and of every schema For returns for the G-type catalogue) give identical bytes; the caller's PropertyOrder slice is unchanged afterwards. Non-trivial = every case (distinct by construction)")
 	r.Assume("R5 is the documented rule of Schema.PropertyOrder", "map-iteration orders are explored in the instrumented build (C19 env part); here repetition only confirms")
 	r.Set("cases", len(cs))
 	type nest struct {
